@@ -5,6 +5,9 @@
 mod addr;
 mod gen;
 mod out;
+mod physmem;
+mod pt;
+mod trap;
 
 use out::Out;
 
@@ -53,6 +56,7 @@ fn parse() -> Args {
 fn main() {
     let args = parse();
     out::silence_panics();
+    trap::install();
     let mut o = Out::create(&args.out);
     match args.family.as_str() {
         "addr" => match args.prop.as_str() {
@@ -64,6 +68,10 @@ fn main() {
             "C20" => addr::run_c20_pure(&mut o, args.seed, args.n),
             _ => usage(),
         },
+        "pt" => {
+            let kinds: Vec<&str> = if args.mode.is_empty() { vec!["mapped", "offset"] } else { args.mode.split(',').collect() };
+            pt::run_random(&mut o, args.seed, args.n, &kinds, &args.prop)
+        }
         _ => usage(),
     }
     o.flush();
